@@ -25,6 +25,9 @@ theories/L2/InstOwn.vos theories/L2/InstOwn.vok theories/L2/InstOwn.required_vos
 theories/L2/Jobs.vo theories/L2/Jobs.glob theories/L2/Jobs.v.beautified theories/L2/Jobs.required_vo: theories/L2/Jobs.v theories/L2/Model.vo theories/L2/Base.vo theories/L2/Own.vo
 theories/L2/Jobs.vio: theories/L2/Jobs.v theories/L2/Model.vio theories/L2/Base.vio theories/L2/Own.vio
 theories/L2/Jobs.vos theories/L2/Jobs.vok theories/L2/Jobs.required_vos: theories/L2/Jobs.v theories/L2/Model.vos theories/L2/Base.vos theories/L2/Own.vos
+theories/L2/DwInv.vo theories/L2/DwInv.glob theories/L2/DwInv.v.beautified theories/L2/DwInv.required_vo: theories/L2/DwInv.v theories/L2/Model.vo theories/L2/Base.vo theories/L2/Own.vo
+theories/L2/DwInv.vio: theories/L2/DwInv.v theories/L2/Model.vio theories/L2/Base.vio theories/L2/Own.vio
+theories/L2/DwInv.vos theories/L2/DwInv.vok theories/L2/DwInv.required_vos: theories/L2/DwInv.v theories/L2/Model.vos theories/L2/Base.vos theories/L2/Own.vos
 theories/L2/Wake.vo theories/L2/Wake.glob theories/L2/Wake.v.beautified theories/L2/Wake.required_vo: theories/L2/Wake.v theories/L2/Model.vo theories/L2/Base.vo theories/L2/Own.vo theories/L2/Jobs.vo
 theories/L2/Wake.vio: theories/L2/Wake.v theories/L2/Model.vio theories/L2/Base.vio theories/L2/Own.vio theories/L2/Jobs.vio
 theories/L2/Wake.vos theories/L2/Wake.vok theories/L2/Wake.required_vos: theories/L2/Wake.v theories/L2/Model.vos theories/L2/Base.vos theories/L2/Own.vos theories/L2/Jobs.vos
@@ -34,9 +37,15 @@ theories/L2/WakeInv.vos theories/L2/WakeInv.vok theories/L2/WakeInv.required_vos
 theories/L2/InstWake.vo theories/L2/InstWake.glob theories/L2/InstWake.v.beautified theories/L2/InstWake.required_vo: theories/L2/InstWake.v theories/L2/Model.vo theories/L2/Base.vo theories/L2/Own.vo theories/L2/Jobs.vo theories/L2/Wake.vo theories/L2/WakeInv.vo theories/L2/Inst.vo gen/Tables.vo
 theories/L2/InstWake.vio: theories/L2/InstWake.v theories/L2/Model.vio theories/L2/Base.vio theories/L2/Own.vio theories/L2/Jobs.vio theories/L2/Wake.vio theories/L2/WakeInv.vio theories/L2/Inst.vio gen/Tables.vio
 theories/L2/InstWake.vos theories/L2/InstWake.vok theories/L2/InstWake.required_vos: theories/L2/InstWake.v theories/L2/Model.vos theories/L2/Base.vos theories/L2/Own.vos theories/L2/Jobs.vos theories/L2/Wake.vos theories/L2/WakeInv.vos theories/L2/Inst.vos gen/Tables.vos
-theories/L2/WakeLem.vo theories/L2/WakeLem.glob theories/L2/WakeLem.v.beautified theories/L2/WakeLem.required_vo: theories/L2/WakeLem.v theories/L2/Model.vo theories/L2/Base.vo theories/L2/Own.vo theories/L2/Jobs.vo theories/L2/Wake.vo theories/L2/WakeInv.vo
-theories/L2/WakeLem.vio: theories/L2/WakeLem.v theories/L2/Model.vio theories/L2/Base.vio theories/L2/Own.vio theories/L2/Jobs.vio theories/L2/Wake.vio theories/L2/WakeInv.vio
-theories/L2/WakeLem.vos theories/L2/WakeLem.vok theories/L2/WakeLem.required_vos: theories/L2/WakeLem.v theories/L2/Model.vos theories/L2/Base.vos theories/L2/Own.vos theories/L2/Jobs.vos theories/L2/Wake.vos theories/L2/WakeInv.vos
+theories/L2/WakeLem.vo theories/L2/WakeLem.glob theories/L2/WakeLem.v.beautified theories/L2/WakeLem.required_vo: theories/L2/WakeLem.v theories/L2/Model.vo theories/L2/Base.vo theories/L2/Own.vo theories/L2/Jobs.vo theories/L2/DwInv.vo theories/L2/Wake.vo theories/L2/WakeInv.vo
+theories/L2/WakeLem.vio: theories/L2/WakeLem.v theories/L2/Model.vio theories/L2/Base.vio theories/L2/Own.vio theories/L2/Jobs.vio theories/L2/DwInv.vio theories/L2/Wake.vio theories/L2/WakeInv.vio
+theories/L2/WakeLem.vos theories/L2/WakeLem.vok theories/L2/WakeLem.required_vos: theories/L2/WakeLem.v theories/L2/Model.vos theories/L2/Base.vos theories/L2/Own.vos theories/L2/Jobs.vos theories/L2/DwInv.vos theories/L2/Wake.vos theories/L2/WakeInv.vos
 theories/L2/Shape.vo theories/L2/Shape.glob theories/L2/Shape.v.beautified theories/L2/Shape.required_vo: theories/L2/Shape.v theories/L2/Model.vo theories/L2/Base.vo theories/L2/Own.vo
 theories/L2/Shape.vio: theories/L2/Shape.v theories/L2/Model.vio theories/L2/Base.vio theories/L2/Own.vio
 theories/L2/Shape.vos theories/L2/Shape.vok theories/L2/Shape.required_vos: theories/L2/Shape.v theories/L2/Model.vos theories/L2/Base.vos theories/L2/Own.vos
+theories/L2/WakeStep1.vo theories/L2/WakeStep1.glob theories/L2/WakeStep1.v.beautified theories/L2/WakeStep1.required_vo: theories/L2/WakeStep1.v theories/L2/Model.vo theories/L2/Base.vo theories/L2/Own.vo theories/L2/Jobs.vo theories/L2/Shape.vo theories/L2/Wake.vo theories/L2/WakeInv.vo theories/L2/WakeLem.vo
+theories/L2/WakeStep1.vio: theories/L2/WakeStep1.v theories/L2/Model.vio theories/L2/Base.vio theories/L2/Own.vio theories/L2/Jobs.vio theories/L2/Shape.vio theories/L2/Wake.vio theories/L2/WakeInv.vio theories/L2/WakeLem.vio
+theories/L2/WakeStep1.vos theories/L2/WakeStep1.vok theories/L2/WakeStep1.required_vos: theories/L2/WakeStep1.v theories/L2/Model.vos theories/L2/Base.vos theories/L2/Own.vos theories/L2/Jobs.vos theories/L2/Shape.vos theories/L2/Wake.vos theories/L2/WakeInv.vos theories/L2/WakeLem.vos
+theories/L2/WakeStep2.vo theories/L2/WakeStep2.glob theories/L2/WakeStep2.v.beautified theories/L2/WakeStep2.required_vo: theories/L2/WakeStep2.v theories/L2/Model.vo theories/L2/Base.vo theories/L2/Own.vo theories/L2/Jobs.vo theories/L2/Shape.vo theories/L2/DwInv.vo theories/L2/Wake.vo theories/L2/WakeInv.vo theories/L2/WakeLem.vo theories/L2/WakeStep1.vo
+theories/L2/WakeStep2.vio: theories/L2/WakeStep2.v theories/L2/Model.vio theories/L2/Base.vio theories/L2/Own.vio theories/L2/Jobs.vio theories/L2/Shape.vio theories/L2/DwInv.vio theories/L2/Wake.vio theories/L2/WakeInv.vio theories/L2/WakeLem.vio theories/L2/WakeStep1.vio
+theories/L2/WakeStep2.vos theories/L2/WakeStep2.vok theories/L2/WakeStep2.required_vos: theories/L2/WakeStep2.v theories/L2/Model.vos theories/L2/Base.vos theories/L2/Own.vos theories/L2/Jobs.vos theories/L2/Shape.vos theories/L2/DwInv.vos theories/L2/Wake.vos theories/L2/WakeInv.vos theories/L2/WakeLem.vos theories/L2/WakeStep1.vos
